@@ -85,6 +85,19 @@ def run(ctx):
                 sev = evaluate(f, {er: "MessageAugmentation"})
                 if not any(s_.callee[0] == "AddAssign::add_assign" for s_ in sev.sites.values()):
                     per_elem = True
+        # ... or the accumulation lives in the closure of fold / try_fold: with the closure's element parameter assumed
+        # to be MessageAugmentation no addition is reached there
+        if not per_elem:
+            for a_ in accs:
+                g = a_["fn"]
+                if a_["mode"] not in ("fold", "try_fold") or g is f:
+                    continue
+                ename = g.locals[g.arg_count].get("name") if g.arg_count >= 2 else None
+                for r, adt in SP.switch_roots(P, g, ["Signature"]):
+                    if r[0] == ename and r[0] is not None:
+                        gev = evaluate(g, {r: "MessageAugmentation"})
+                        if not any(s_.callee[0] in ("AddAssign::add_assign", "Add::add") for s_ in gev.sites.values()):
+                            per_elem = True
         first_ok = True
         for b in oks:
             for adt, var, src, dsc in __import__("analysis.rules.common", fromlist=["scheme_context"]).scheme_context(P, f, b):
@@ -106,7 +119,8 @@ def run(ctx):
             if okf:
                 g = P.fns.get(c.a[0][1])
                 r = strip_sites(evaluate(g).ret) if g is not None else None
-                okf = r is not None and r.op == "call" and B.cname(r) in ("Add::add",) and {B.peel(x).a[0] if B.peel(x).op == "param" else None for x in r.a[1]} == {2, 3}
+                # `|acc, x| acc + x`  or  `|mut acc, x| { acc += x; acc }`
+                okf = r is not None and ((r.op == "call" and B.cname(r) in ("Add::add",) and {B.peel(x).a[0] if B.peel(x).op == "param" else None for x in r.a[1]} == {2, 3}) or (r.op == "mutcall" and B.cname(r) == "AddAssign::add_assign" and r.a[1] == 0 and [B.peel(x).a[0] if B.peel(x).op == "param" else None for x in r.a[2]] == [2, 3]))
             ctx.ob("E4.accumulate", ak, okf, "accumulator = fold(iterator, identity, |acc, x| acc + x)", where=where(a))
             F.check_no_dropping_adapters(ctx, "E7.adapters", P, [ak])
             continue
